@@ -79,8 +79,8 @@ theorem C14_scope (prog : Prog) (fuel : Nat) :
 index expressions left it -/
 theorem C14_assign_frame (prog : Prog) (fuel : Nat) (env env' : Env) (x : String) (path : Path) (e : Expr)
     (u : Val) (h : evalStmt (fuel + 1) prog env (.assign x path e) = .ok (u, env')) :
-    ∃ v env1 steps env2, evalExpr fuel prog env e = .ok (v, env1) ∧
-      evalPath fuel prog env1 path = .ok (steps, env2) ∧
+    ∃ v env1 old steps env2, evalExpr fuel prog env e = .ok (v, env1) ∧ env1.get? x = some old ∧
+      evalPath fuel prog env1 old path = .ok (steps, env2) ∧
       ∀ y, y ≠ x → env'.get? y = env2.get? y := by
   unfold evalStmt at h
   simp only at h
@@ -89,14 +89,15 @@ theorem C14_assign_frame (prog : Prog) (fuel : Nat) (env env' : Env) (x : String
   · rename_i v env1 he
     split at h
     · simp at h
-    · rename_i steps env2 hp
+    · rename_i old hold
       split at h
       · simp at h
-      · split at h
+      · rename_i steps env2 hp
+        split at h
         · simp at h
         · simp only [Except.ok.injEq, Prod.mk.injEq] at h
           obtain ⟨_, rfl⟩ := h
-          exact ⟨v, env1, steps, env2, he, hp, fun y hy => Env.get?_set_ne env2 x y _ hy⟩
+          exact ⟨v, env1, old, steps, env2, he, hold, hp, fun y hy => Env.get?_set_ne env2 x y _ hy⟩
 
 theorem ValList'.get?_set_ne : ∀ (vs : ValList) (i j : Nat) (w : Val), j ≠ i →
     ValList'.get? (ValList'.set vs i w) j = ValList'.get? vs j
